@@ -122,7 +122,24 @@ func mutate(r *rng, s string, ver int) string {
 		return s
 	}
 	i := r.intn(len(parts))
-	switch r.intn(18) {
+	switch r.intn(19) {
+	case 18: // split ambiguity: "A:VL" reads like "AV" + "L"
+		if k := strings.IndexByte(parts[i], ':'); k > 0 {
+			sp := specs[ver]
+			abv := parts[i][:k]
+			var cand []string
+			for j := range sp.Metrics {
+				o := &sp.Metrics[j]
+				if len(o.Abv) > len(abv) && strings.HasPrefix(o.Abv, abv) {
+					for _, v := range o.Values {
+						cand = append(cand, o.Abv[len(abv):]+v)
+					}
+				}
+			}
+			if len(cand) > 0 {
+				parts[i] = parts[i][:k+1] + r.pick(cand)
+			}
+		}
 	case 17: // a value that is legal for another metric of the version (its
 		// modified/base twin half of the time), not for this one
 		if k := strings.IndexByte(parts[i], ':'); k > 0 {
@@ -273,7 +290,12 @@ func init() {
 var oddBytes = []string{"\x00", "\x01", " ", "\xff", "\t", "\n", ":", "/", "A", "x", "\x7f", "\u00a0"}
 
 func nearMiss(r *rng, s string) string {
-	switch r.intn(16) {
+	switch r.intn(17) {
+	case 16: // a proper prefix
+		if len(s) > 1 {
+			return s[:1+r.intn(len(s)-1)]
+		}
+		return ""
 	case 15: // a rune (or wide integer) that truncates to a legal byte
 		if len(s) > 0 {
 			i := r.intn(len(s))
@@ -367,11 +389,30 @@ func genValue(r *rng, ver int, abv string, adversarial float64) string {
 	if m != nil && !r.chance(adversarial) {
 		return r.pick(m.Values)
 	}
+	if m != nil && r.chance(0.15) {
+		// split ambiguity: metric + value reads like a LONGER metric and one of
+		// its values ("A" + "VP" = "AV" + "P", "A" + "V:P" = "AV:P")
+		var cand []string
+		for i := range sp.Metrics {
+			o := &sp.Metrics[i]
+			if len(o.Abv) > len(abv) && strings.HasPrefix(o.Abv, abv) {
+				for _, v := range o.Values {
+					cand = append(cand, o.Abv[len(abv):]+v, o.Abv[len(abv):]+":"+v)
+				}
+			}
+		}
+		if len(cand) > 0 {
+			return r.pick(cand)
+		}
+	}
 	if m != nil && r.chance(0.2) {
 		return glue(r, m.Values)
 	}
 	if r.chance(0.6) {
 		return r.pick(allVals)
+	}
+	if m != nil && r.chance(0.6) {
+		return nearMiss(r, r.pick(m.Values)) // a near miss of one of the metric's OWN values
 	}
 	return nearMiss(r, r.pick(allVals))
 }
@@ -438,7 +479,7 @@ func genPlanOpt(seed uint64, prop string, cold bool) *Plan {
 	maxOps := []int{3, 6, 12, 25, 40}[r.intn(5)]
 
 	nParse := 0
-	hot := prop == "C14" && !cold && r.chance(0.15)
+	hot := !cold && r.chance(map[bool]float64{true: 0.15, false: 0.05}[prop == "C14"])
 	sweep := !hot && !cold && r.chance(0.06)
 	repeat := !hot && !sweep && !cold && r.chance(0.05)
 	neigh := !hot && !sweep && !repeat && !cold && r.chance(map[bool]float64{true: 0.03, false: 0.08}[prop == "C14"])
